@@ -9,6 +9,8 @@ for f in os.listdir(src):
     p = os.path.join(src, f)
     if os.path.isfile(p) and os.path.getsize(p) < 200000:
         shutil.copy(p, os.path.join(dst, f))
+    elif os.path.isdir(p):
+        shutil.copytree(p, os.path.join(dst, f), dirs_exist_ok=True)
 json.dump({"seed": sid, "breaks_property": prop, "needs_to_manifest": needs,
            "what_i_ran": ran, "detected_by": caught}, open(os.path.join(dst, "meta.json"), "w"), indent=1)
 print("kept", dst, os.listdir(dst))
